@@ -25,7 +25,91 @@ func runC13(c *mon.Ctx) {
 		c.Cases(func(i int, r *mon.Rand) { c13Scope(c, r) })
 		return
 	}
-	c.Cases(func(i int, r *mon.Rand) { c13Life(c, r) })
+	c.Cases(func(i int, r *mon.Rand) {
+		c13Life(c, r)
+		if i%25 == 0 {
+			c13Backlog(c, r.Fork(5))
+		}
+	})
+}
+
+// c13Backlog: the sender is held up for a quarter of a second (one slow send,
+// injected at the transport's flush point) while callers go on reporting into
+// the queue and return at once. What was queued during that time crosses
+// several ticks of the reporter's clock before it is emitted; its timestamp
+// must still be the time of the call, never a later one.
+func c13Backlog(c *mon.Ctx, r *mon.Rand) {
+	proto := m3.Compact
+	if r.Bool() {
+		proto = m3.Binary
+	}
+	var slept int32
+	inner := func(id int) {
+		if id == tally.VerifUDPFlushed && atomic.CompareAndSwapInt32(&slept, 0, 1) {
+			time.Sleep(250 * time.Millisecond)
+		}
+	}
+	env, err := newM3Env(1, m3.Options{Service: "svc", Env: "test", Protocol: proto, MaxQueueSize: 4096}, inner)
+	if err != nil {
+		c.Inconclusive("NewReporter: " + err.Error())
+		return
+	}
+	c.Eval(1)
+	desc := map[string]interface{}{"scenario": "backlog behind one slow send", "protocol": protoName(proto)}
+	stopWatch := c.Watchdog(300*time.Second, "m3-call-or-close-does-not-return", desc)
+	defer stopWatch()
+	idents := genM3Idents(r, 6)
+	var calls []m3Call
+	c.Guard("panic-m3-producer", func() interface{} { return desc }, func() {
+		first := allocM3(env.Rep, &m3Ident{Kind: "counter", Name: "before-the-slow-send", Tags: map[string]string{"p": "0"}})
+		calls = append(calls, first.report(r, 0, 0))
+		env.Rep.Flush() // the sender emits this batch and is then held up
+		time.Sleep(20 * time.Millisecond)
+		for i := 0; i < 60; i++ {
+			h := allocM3(env.Rep, &idents[r.Intn(len(idents))])
+			calls = append(calls, h.report(r, 1, i+1))
+		}
+	})
+	closeErr := env.Rep.Close()
+	complete, why := env.finish()
+	if closeErr != nil {
+		c.Violation("close-error", map[string]interface{}{"why": closeErr.Error(), "case": desc})
+	}
+	if !complete {
+		c.Inconclusive(why)
+		return
+	}
+	lastAfter := map[string]int64{}
+	for _, cl := range calls {
+		if cl.TAfter > lastAfter[cl.key()] {
+			lastAfter[cl.key()] = cl.TAfter
+		}
+	}
+	msgs, _ := decodeAll(proto, env.Sinks[0].Datagrams())
+	n := 0
+	for _, m := range msgs {
+		for _, met := range m.Batch.Metrics {
+			k, _, _, _, internal := decodedKey(met, "bucketid", "bucket")
+			if internal {
+				continue
+			}
+			la, ok := lastAfter[k]
+			if !ok {
+				continue
+			}
+			n++
+			if met.Timestamp > la {
+				c.Violation("timestamp-after-call", map[string]interface{}{"why": fmt.Sprintf("metric %s was queued while the sender was held up; it carries the timestamp %d, its report call had returned at %d (%d ms earlier)", k, met.Timestamp, la, (met.Timestamp-la)/1e6), "case": desc})
+				break
+			}
+			if met.Timestamp < env.TC0 {
+				c.Violation("timestamp-before-construction", map[string]interface{}{"why": fmt.Sprintf("metric %s carries the timestamp %d, the reporter was constructed at >= %d", k, met.Timestamp, env.TC0), "case": desc})
+				break
+			}
+		}
+	}
+	c.Event("backlog-timestamps-checked", int64(n))
+	c.Distinct(mon.Hash64("backlog", fmt.Sprint(r.U64())))
 }
 
 type m3Ident struct {
